@@ -3,6 +3,7 @@
   (source: the MemMapFs model; every `Nat` flag value; every handle method).
 -/
 import AferoVerif.Proofs.ReadOnly
+import AferoVerif.Generated.Facts
 namespace AferoVerif.C07
 open AferoVerif AferoVerif.RO
 
@@ -57,5 +58,12 @@ example : AllRO src1 := allRO_init _ rfl
 example : (roRun src1 [.openFile "/f".toList O_SYNC 0, .hWrite 0 [9], .hTrunc 0 0, .hClose 0, .stat "/f".toList]).2 =
     [.handle 0 none, .file (.n 0 (some .rohandle)), .file (.err .rohandle), .ok,
      .info "f".toList 3 false modeTemporary] := by decide
+
+/-! ### tie to the source: constants regenerated from the Go code on every run -/
+
+/-- the write mask of the model is the one written in `ReadOnlyFs.OpenFile` (extracted from
+    readonlyfs.go by harness/cmd/facts), and MemMapFs decides "read-only handle" by the access-mode
+    bits the model uses -/
+theorem masks_are_source : roWriteMask = Generated.roWriteMask ∧ (O_WRONLY ||| O_RDWR) = Generated.memAccessMask := by decide
 
 end AferoVerif.C07
